@@ -279,6 +279,10 @@ func prefixFree(keys []string) []string {
 
 // chunks draws an aws-chunked chunk-size sequence for a payload.
 func (g *G) chunks(size int) []int {
+	if size > 65536 {
+		// tiny chunks of a large payload cost millions of steps and add nothing
+		return [][]int{{size + 1}, {8192}, {32768 + g.n(-1, 1), 65536 + g.n(0, 5000)}, {4096, 100000}}[g.rng.Intn(4)]
+	}
 	switch g.rng.Intn(6) {
 	case 0:
 		return []int{size + 1} // one chunk
@@ -316,8 +320,9 @@ func (g *G) genC02(p *Plan) {
 	}
 	universe := bucketNames[:nb]
 	c.Buckets = universe[:g.n(1, nb)]
-	keys := plainKeys[g.rng.Intn(len(plainKeys))]
-	keys = keys[:g.n(1, len(keys))]
+	keys := append([]string{}, plainKeys[g.rng.Intn(len(plainKeys))]...)
+	keys = keys[:g.n(1, len(keys)):len(keys)]
+	keys = append([]string{}, keys...)
 	if !c.IsFS() && g.chance(0.3) {
 		keys = append(keys, "a", "a/b") // path-prefix keys are fine on opaque backends
 	}
